@@ -9,7 +9,7 @@
    also says that no other bit of any plane changes. *)
 From Coq Require Import List NArith ZArith Bool Ascii String.
 From Gatery Require Import Bits BvsDefs BvsSpec BvsLeaf BvsWords BvsCopy BvsAbs BvsOps BvsEq
-     BvsQuery BvsCmp BvsMerge BvsBig BvsSeq BvsText BvsParse BvsRound.
+     BvsQuery BvsCmp BvsMerge BvsBig BvsMore BvsSeq BvsText BvsParse BvsRound.
 Import ListNotations.
 Local Open Scope N_scope.
 
@@ -161,6 +161,71 @@ Proof. exact eqS_abs. Qed.
 Print Assumptions C18_equal.
 Example ex_equal : eqS ex_s (extractS (append ex_s ex_s) 130 130) = true.
 Proof. vm_compute. reflexivity. Qed.
+
+(* operator== returns true iff the sizes are equal and every plane is bit-wise equal *)
+Theorem C18_equal_iff : forall a b,
+  wf a -> wf b -> length (planes a) = length (planes b) -> planes a <> [] ->
+  (eqS a b = true <-> bsize a = bsize b /\ abs a = abs b).
+Proof. exact eqS_true_iff. Qed.
+Print Assumptions C18_equal_iff.
+(* sizes that are multiples of 64 with a difference only in the last block *)
+Example ex_equal_last_block :
+  eqS (st_defined 64 0x0123456789ABCDEF) (st_defined 64 0xFEDCBA9876543210) = false
+  /\ eqS {| bsize := 128; planes := [[5; 1]; [0; 0]] |} {| bsize := 128; planes := [[5; 0x8000000000000001]; [0; 0]] |} = false
+  /\ eqS {| bsize := 128; planes := [[5; 1]; [0; 0]] |} {| bsize := 128; planes := [[5; 1]; [0; 0]] |} = true.
+Proof. repeat split; vm_compute; reflexivity. Qed.
+
+(* ---------------- whole-object operations and views ---------------- *)
+Theorem C18_clear_then_resize : forall s n,
+  let r := clearResize s n in
+  wf r /\ clean r /\ bsize r = n /\ length (planes r) = length (planes s)
+  /\ abs r = clearResize_spec (abs s) n.
+Proof. exact clearResize_all. Qed.
+Print Assumptions C18_clear_then_resize.
+
+Theorem C18_head : forall s p,
+  wf s -> (p < length (planes s))%nat -> bsize s <= 64 -> head s p = head_spec (abs s) p.
+Proof. exact head_abs. Qed.
+Print Assumptions C18_head.
+
+Theorem C18_allDefinedNonStraddling : forall s start size,
+  wf s -> (DEFINED < length (planes s))%nat -> start mod 64 + size <= 64 -> start + size <= bsize s ->
+  allDefinedNS s start size = allDefinedNS_spec (abs s) start size.
+Proof. exact allDefinedNS_abs. Qed.
+Print Assumptions C18_allDefinedNonStraddling.
+
+Theorem C18_asBytes : forall s p,
+  wf s -> clean s -> (p < length (planes s))%nat -> bytesToN (asBytes s p) = asBytes_spec (abs s) p.
+Proof. exact asBytes_abs. Qed.
+Print Assumptions C18_asBytes.
+
+(* operator==(state, span of bytes): exception unless size = 8 * #bytes, else
+   "all bits defined and the VALUE plane is the concatenation of the bytes" *)
+Theorem C18_equal_bytes : forall s bytes,
+  wf s -> (DEFINED < length (planes s))%nat -> bsize s <= size_max ->
+  Forall (fun b => b < 256) bytes ->
+  eqBytes s bytes = eqBytes_spec (abs s) bytes.
+Proof. exact eqBytes_abs. Qed.
+Print Assumptions C18_equal_bytes.
+Example ex_equal_bytes :
+  eqBytes (st_defined 24 0x030201) [1; 2; 3] = Some true /\ eqBytes (st_defined 24 0x830201) [1; 2; 3] = Some false
+  /\ eqBytes (st_defined 16 0x0201) [1; 2; 3] = None.
+Proof. repeat split; vm_compute; reflexivity. Qed.
+
+(* range(plane, offset, size): reading all chunks / assigning all chunks through the iterator *)
+Theorem C18_iterator_read : forall s p off size,
+  wf s -> (p < length (planes s))%nat -> off + size <= bsize s ->
+  iterRead s p off size = iterRead_spec (abs s) p off size.
+Proof. exact iterRead_abs. Qed.
+Print Assumptions C18_iterator_read.
+
+Theorem C18_iterator_write : forall s p off size v,
+  wf s -> off + size <= bsize s ->
+  abs (iterWrite s p off size v) = iterWrite_spec (abs s) p off size v.
+Proof. exact abs_iterWrite. Qed.
+Print Assumptions C18_iterator_write.
+(* copy-assignment, swap and move are the constructors OAssign / OSwap / OMove of [op]; their
+   equations are part of C18_step / C18_sequences *)
 
 (* ---------------- range queries ---------------- *)
 Theorem C18_compareRange_default : forall d dOff s sOff size,
